@@ -181,6 +181,10 @@ def check_malformed(ctx, case):
     elif kind == "bad-bass":
         ctx.raises("malformed/bad-bass", (NoteFormatError,), chords.from_shorthand, s)
         nt = True
+    elif kind.endswith("-in-polychord"):
+        ctx.raises("malformed/" + kind, {"unknown-suffix": (FormatError,), "bad-root": (NoteFormatError,), "bad-bass": (NoteFormatError,)}[kind[:-13]],
+                   chords.from_shorthand, s)
+        nt = True
     else:
         try:
             r = chords.from_shorthand(s)
@@ -333,7 +337,12 @@ def _st_malformed():
         lambda r: r.lower(), root)).filter(lambda b: not T.valid(b) and "/" not in b and "|" not in b)
     badbass = st.builds(lambda r, sh, b: [sh, r, b], root, st.sampled_from([s for s in shs if "/" not in s]), bass).filter(
         lambda t: R.normalise(t[0] + "/" + t[2]) not in known).map(lambda t: ["bad-bass", t[1] + t[0] + "/" + t[2]])
-    return unknown | badroot | badbass
+    # a malformed part inside a polychord (first, middle or last): the whole string is rejected with the error of that part
+    good = st.builds(lambda r, sh: r + sh, root, st.sampled_from(["", "m", "7", "M7", "dim", "m7", "6"]))
+    def embed(kind_err):
+        return st.tuples(kind_err, st.lists(good, min_size=1, max_size=2), st.integers(0, 2)).map(
+            lambda t: [t[0][0] + "-in-polychord", "|".join(t[1][:t[2]] + [t[0][1]] + t[1][t[2]:])])
+    return unknown | badroot | badbass | embed(badbass) | embed(unknown) | embed(badroot)
 
 
 def _st_text():
@@ -359,7 +368,10 @@ def sub_malformed(ctx, shard, n):
     ctx.enumerate("malformed", check_malformed,
                   [["unknown-suffix", "Cfoo"], ["unknown-suffix", "C#xyz"], ["unknown-suffix", "Ebm7x"],
                    ["unknown-suffix", "C7b13"], ["bad-root", "Hm7"], ["bad-root", "cm"], ["bad-root", "bm7"],
-                   ["bad-root", "#C"], ["bad-bass", "Cm7/H"], ["bad-bass", "C/g"], ["bad-bass", "F#dim/Gx"]])
+                   ["bad-root", "#C"], ["bad-bass", "Cm7/H"], ["bad-bass", "C/g"], ["bad-bass", "F#dim/Gx"],
+                   ["bad-bass-in-polychord", "Am/H|C"], ["bad-bass-in-polychord", "C|Am/H"], ["bad-bass-in-polychord", "C/Gm|F"],
+                   ["bad-bass-in-polychord", "G|Dm7/e|C"], ["unknown-suffix-in-polychord", "Cfoo|G"], ["unknown-suffix-in-polychord", "G|Cfoo"],
+                   ["bad-root-in-polychord", "Hm|C"], ["bad-root-in-polychord", "C|Hm"]])
     ctx.given("malformed", check_malformed, _st_malformed(), 2000 if ctx.quick else 10000)
     ctx.given("malformed", check_malformed, _st_text(), 2000 if ctx.quick else 10000)
 
